@@ -243,39 +243,20 @@ func scanLoops(c *core.Ctx, fn *core.Fn, name string, keyObj types.Object) bool 
 	if len(openE) == 0 && len(closeE) == 0 {
 		return false
 	}
+	if len(openE) == 1 && len(closeE) == 0 && len(slices) > 0 {
+		// mixed form: '{' found by a hand-written test, '}' by a library search
+		if mixedClose(c, s, fn, name, openE[0], openIdx[0], slices) {
+			return true
+		}
+	}
 	if len(openE) != 1 || len(closeE) != 1 || len(slices) == 0 {
 		c.Undecidedf("R3.tag", name+"/skeleton", fn.Decl.Pos(), "expected one test for '{', one for '}' and a slice of the key in %s; found %d, %d, %d", name, len(openE), len(closeE), len(slices))
 		return true
 	}
-	// (A)/(B): after a match the same search is never resumed
-	again := func(what string, edge [2]interface{}, idx types.Object, ch int64, avoid func(ast.Node) bool, wit, consequence string) {
-		def := s.tagDef(idx)
-		b, si := edge[0].(*cfg.Block), edge[1].(int)
-		from := cfgq.Point{B: b.Succs[si], I: 0}
-		test := s.isTest(ch)
-		key := name + "/" + what
-		pos := cfgq.CondOf(b).Pos()
-		anyPath := s.g.Path(cfgq.Query{From: from, Target: test, Avoid: avoid})
-		if anyPath == nil {
-			c.Okf("R3.tag", key, pos, "once %q has been found the search for it is never resumed", rune(ch))
-			return
-		}
-		// a path that fixes the tag and comes back without consulting any flag
-		for _, p := range s.g.Points(def) {
-			dn := p.Node()
-			w1 := s.g.Path(cfgq.Query{From: from, Target: func(n ast.Node) bool { return n == dn }, Avoid: cfgq.Or(test, orNil(avoid)), AvoidEdge: s.flagEdge})
-			w2 := s.g.Path(cfgq.Query{From: p, After: true, Target: test, Avoid: avoid, AvoidEdge: s.flagEdge})
-			if w1 != nil && w2 != nil {
-				c.Check("R3.tag", key, pos, false, consequence+" (e.g. key "+wit+")", append(w1, w2...)...)
-				return
-			}
-		}
-		c.Undecidedf("R3.tag", key, pos, "the search for %q can be resumed after a match, but only under conditions this rule does not interpret", rune(ch))
-	}
 	isOpen := s.isTest('{')
-	again("first-open", openE[0], openIdx[0], '{', nil, `"{a}{b}" hashes "b", "{}{x}" hashes "x" instead of the whole key`,
+	s.again("first-open", openE[0], openIdx[0], '{', nil, `"{a}{b}" hashes "b", "{}{x}" hashes "x" instead of the whole key`,
 		"after a '{' was found the scan goes on looking for further '{' and overwrites the tag: the last {...} wins, the specification takes the first '{' only")
-	again("first-close", closeE[0], closeIdx[0], '}', isOpen, `"{a}b}" hashes "a}b"`,
+	s.again("first-close", closeE[0], closeIdx[0], '}', isOpen, `"{a}b}" hashes "a}b"`,
 		"after a '}' was found the scan for '}' continues and moves the end of the tag: the specification ends the tag at the first '}' after the first '{'")
 
 	// (D) tag = key[open+1 : close]
@@ -587,4 +568,31 @@ func emptinessTests(info *types.Info, body ast.Node, arg ast.Expr, crcFn *types.
 		return true
 	})
 	return n
+}
+
+// again checks (A)/(B): after a match the same search is never resumed.
+func (s *scan) again(what string, edge [2]interface{}, idx types.Object, ch int64, avoid func(ast.Node) bool, wit, consequence string) {
+	c, name := s.c, s.name
+	def := s.tagDef(idx)
+	b, si := edge[0].(*cfg.Block), edge[1].(int)
+	from := cfgq.Point{B: b.Succs[si], I: 0}
+	test := s.isTest(ch)
+	key := name + "/" + what
+	pos := cfgq.CondOf(b).Pos()
+	anyPath := s.g.Path(cfgq.Query{From: from, Target: test, Avoid: avoid})
+	if anyPath == nil {
+		c.Okf("R3.tag", key, pos, "once %q has been found the search for it is never resumed", rune(ch))
+		return
+	}
+	// a path that fixes the tag and comes back without consulting any flag
+	for _, p := range s.g.Points(def) {
+		dn := p.Node()
+		w1 := s.g.Path(cfgq.Query{From: from, Target: func(n ast.Node) bool { return n == dn }, Avoid: cfgq.Or(test, orNil(avoid)), AvoidEdge: s.flagEdge})
+		w2 := s.g.Path(cfgq.Query{From: p, After: true, Target: test, Avoid: avoid, AvoidEdge: s.flagEdge})
+		if w1 != nil && w2 != nil {
+			c.Check("R3.tag", key, pos, false, consequence+" (e.g. key "+wit+")", append(w1, w2...)...)
+			return
+		}
+	}
+	c.Undecidedf("R3.tag", key, pos, "the search for %q can be resumed after a match, but only under conditions this rule does not interpret", rune(ch))
 }
